@@ -6,8 +6,8 @@
 -/
 import Rtp.Pred.C17
 import Rtp.Go.Bits
-namespace Rtp.Proofs.Ext
-open Rtp Rtp.Model.Ext Rtp.Pred.C17 Rtp.Spec.Ext
+namespace Rtp.Proofs.ExtCodecs
+open Rtp Rtp.Model.ExtCodecs Rtp.Pred.C17 Rtp.Spec.ExtLayouts
 
 theorem u8_ext {a b : UInt8} (h : a.toNat = b.toNat) : a = b := UInt8.toNat_inj.mp h
 theorem u16_ext {a b : UInt16} (h : a.toNat = b.toNat) : a = b := UInt16.toNat_inj.mp h
@@ -590,4 +590,4 @@ theorem parse_render (fs : List Field) (hwf : ∀ f ∈ fs, f.2 < 2 ^ f.1) (h8 :
     rw [e]; exact this
   rw [Nat.mod_eq_of_lt hp]
   exact split_pack fs hwf
-end Rtp.Proofs.Ext
+end Rtp.Proofs.ExtCodecs
